@@ -7,7 +7,9 @@ import (
 	"bytes"
 	"errors"
 	"io"
+	"strings"
 
+	"filippo.io/age/armor"
 	"filippo.io/age/internal/format"
 	V "filippo.io/age/internal/zzverif"
 	"golang.org/x/crypto/chacha20poly1305"
@@ -43,6 +45,7 @@ type absRecipient struct {
 	stanzas int
 	labels  []string
 	fail    bool
+	big     bool
 	seen    *[][]byte
 }
 
@@ -57,6 +60,10 @@ func (a *absRecipient) WrapWithLabels(fileKey []byte) ([]*Stanza, []string, erro
 		return nil, nil, errors.New("abstract recipient refuses to wrap")
 	}
 	var out []*Stanza
+	if a.big {
+		// a stanza large enough to overflow any reasonable write buffer
+		out = append(out, &Stanza{Type: "abs" + a.id, Args: []string{"big"}, Body: make([]byte, 6000)})
+	}
 	for k := 0; k < a.stanzas; k++ {
 		out = append(out, &Stanza{Type: "abs" + a.id, Args: []string{string(rune('a' + k))}, Body: V.Bytes("body"+a.id+string(rune('a'+k)), 3)})
 	}
@@ -279,7 +286,7 @@ func Harness_C04_nomatch() {
 func labelList(name string, n int) []string {
 	var out []string
 	for k := 0; k < n; k++ {
-		b := V.Bytes(name+string(rune('a'+k)), V.Int(name+string(rune('a'+k))+".len", 1, 2))
+		b := V.Bytes(name+string(rune('a'+k)), V.Int(name+string(rune('a'+k))+".len", V.Param("minlabellen", 1), V.Param("maxlabellen", 2)))
 		out = append(out, string(b))
 	}
 	// the property speaks of label sets: duplicate-free lists
@@ -320,6 +327,9 @@ func Harness_C11_labels() {
 	for k := 0; k < nrec; k++ {
 		id := string(rune('0' + k))
 		a := &absRecipient{id: id, stanzas: 1, seen: &seen}
+		if k == 0 && V.Param("big", 0) == 1 {
+			a.big = V.Bool("big")
+		}
 		switch V.Int("kind"+id, 0, 2) {
 		case 0: // does not implement RecipientWithLabels
 			recips = append(recips, plainRecipient{a})
@@ -543,9 +553,11 @@ func Harness_C06_two_files() {
 	V.InstallTape()
 	idA := symIdentity("skA")
 	var f1, f2 bytes.Buffer
-	w1, e1 := Encrypt(&f1, idA.Recipient())
+	// one recipient value used for both files (and listed twice in the second)
+	rA := idA.Recipient()
+	w1, e1 := Encrypt(&f1, rA)
 	n1 := len(V.Draws())
-	w2, e2 := Encrypt(&f2, idA.Recipient())
+	w2, e2 := Encrypt(&f2, rA, rA)
 	V.Assert(e1 == nil && e2 == nil, "Encrypt failed")
 	if e1 != nil || e2 != nil {
 		return
@@ -554,11 +566,35 @@ func Harness_C06_two_files() {
 	w2.Close()
 	V.Reach("encrypted")
 	V.Assert(!bytes.Equal(f1.Bytes(), f2.Bytes()), "two encryptions of the same input are identical")
-	if !V.Symbolic() {
+	// every stanza of the two files carries its own ephemeral share
+	hd1, _, p1 := format.Parse(bytes.NewReader(f1.Bytes()))
+	hd2, _, p2 := format.Parse(bytes.NewReader(f2.Bytes()))
+	V.Assert(p1 == nil && p2 == nil && len(hd1.Recipients) == 1 && len(hd2.Recipients) == 2, "written headers do not parse")
+	if p1 != nil || p2 != nil || len(hd1.Recipients) != 1 || len(hd2.Recipients) != 2 {
 		return
 	}
+	const sharedEph = "an ephemeral secret is shared between stanzas or between files"
+	if !V.Symbolic() {
+		// native replay: the same fact on the output
+		sh := []string{hd1.Recipients[0].Args[0], hd2.Recipients[0].Args[0], hd2.Recipients[1].Args[0]}
+		V.Assert(sh[0] != sh[1] && sh[0] != sh[2] && sh[1] != sh[2], sharedEph)
+		return
+	}
+	// the three ephemeral scalars are three different draws
+	usedDraw := map[int]bool{}
+	nEph := 0
+	for _, sc := range V.BaseScalars() {
+		if V.Same(sc, idA.secretKey) {
+			continue
+		}
+		nEph++
+		k := indexOfSame(sc, V.Draws())
+		V.Assert(k >= 0 && !usedDraw[k], sharedEph)
+		usedDraw[k] = true
+	}
+	V.Assert(nEph == 3, sharedEph)
 	draws := V.Draws()
-	V.Assert(n1 >= 3 && len(draws) == 2*n1, "the two encryptions did not draw the same number of fresh values")
+	V.Assert(n1 >= 3 && len(draws) == 2*n1+1, "the two encryptions did not draw one fresh value per role")
 	// role by role the second file uses later draws than the first
 	h1, h2 := f1.Len()-16-16, f2.Len()-16-16
 	k1 := indexOfSame(f1.Bytes()[h1:h1+16], draws)
@@ -665,6 +701,15 @@ func Harness_C10_workfactor() {
 	for _, c := range w {
 		V.Assume(printableNoSpace[c])
 	}
+	if V.Param("overflow", 0) == 1 && V.Bool("overflow") {
+		// twenty-digit strings around 2^64 = 18446744073709551616
+		tail := V.Bytes("wtail", 4)
+		for _, c := range tail {
+			V.Assume(digitClass[c])
+		}
+		w = append([]byte("1844674407370955"), tail...)
+		wl = len(w)
+	}
 	st := &Stanza{Type: "scrypt", Args: []string{"AAAAAAAAAAAAAAAAAAAAAA", string(w)}, Body: V.Bytes("body", 32)}
 	fk, err := id.Unwrap([]*Stanza{st})
 	V.Reach("returned")
@@ -680,6 +725,7 @@ func Harness_C10_workfactor() {
 			val = val*10 + int(c-'0')
 		}
 	}
+	_ = wl
 	const ran = "key derivation ran for a non-canonical or too large work factor"
 	if !canon || val > max {
 		if V.Symbolic() {
@@ -1043,5 +1089,194 @@ func Harness_C14_unwrap_native() {
 		for _, n := range V.ScryptWork() {
 			V.Assert(n <= 1<<uint(max), "key derivation ran with more work than the configured maximum allows")
 		}
+	}
+}
+
+// ---------------------------------------------------------------------------
+// C01 through the ASCII armor, at the real chunk size
+
+// Harness_C01_armored_e2e: every plaintext length 0..47 (so every residue of
+// the file length modulo the 48 bytes of an armor line), one native recipient,
+// file written through armor.NewWriter and read back through armor.NewReader.
+func Harness_C01_armored_e2e() {
+	idA, idC := symIdentity("skA"), symIdentity("skC")
+	V.Assume(differ(idC.ourPublicKey, idA.ourPublicKey))
+	P := V.Bytes("P", V.Int("n", 0, V.Param("maxn", 47)))
+	var text bytes.Buffer
+	aw := armor.NewWriter(&text)
+	w, err := Encrypt(aw, idA.Recipient())
+	V.Assert(err == nil, "Encrypt refused a native recipient")
+	if err != nil {
+		return
+	}
+	w.Write(P)
+	V.Assert(w.Close() == nil && aw.Close() == nil, "Close failed")
+	V.Reach("encrypted")
+	r, derr := Decrypt(armor.NewReader(bytes.NewReader(text.Bytes())), idC, idA)
+	V.Assert(derr == nil, "a listed recipient cannot decrypt the armored file")
+	if derr != nil {
+		return
+	}
+	out, rerr := io.ReadAll(r)
+	V.Assert(rerr == nil, "armored payload does not end with a clean end of stream")
+	V.Assert(bytes.Equal(out, P), "decrypted bytes differ from the plaintext")
+	V.Reach("decrypted")
+}
+
+// ---------------------------------------------------------------------------
+// C04: passphrases and identities of another type
+
+// Harness_C04_passphrase: a file for passphrase A, opened with a different
+// passphrase B (any lengths 0..3 + 1, differing anywhere): no reader, the
+// no-match error with one incorrect-identity cause.
+func Harness_C04_passphrase() {
+	V.InstallTape()
+	a := string(V.Bytes("pwA", V.Int("la", 0, V.Param("maxpw", 2)))) + "k"
+	b := string(V.Bytes("pwB", V.Int("lb", 0, V.Param("maxpw", 2)))) + "k"
+	if V.Bool("suffix") { // differ after a common stem: trailing characters matter
+		b = a + string(V.Bytes("pwS", V.Int("ls", 1, 2)))
+	}
+	V.Assume(a != b)
+	// A7 models scrypt as collision-free; the real HMAC pads its key with zero
+	// bytes, so passphrases that differ only by trailing NUL bytes do collide
+	// (a property of the primitive, outside this claim)
+	V.Assume(strings.TrimRight(a, "\x00") != strings.TrimRight(b, "\x00"))
+	r, err1 := NewScryptRecipient(a)
+	id, err2 := NewScryptIdentity(b)
+	V.Assert(err1 == nil && err2 == nil, "constructors failed")
+	if err1 != nil || err2 != nil {
+		return
+	}
+	r.SetWorkFactor(1)
+	var file bytes.Buffer
+	w, err := Encrypt(&file, r)
+	V.Assert(err == nil, "Encrypt failed")
+	if err != nil {
+		return
+	}
+	w.Write([]byte("p"))
+	w.Close()
+	rd, derr := Decrypt(bytes.NewReader(file.Bytes()), id)
+	V.Reach("returned")
+	V.Assert(rd == nil && derr != nil, "a different passphrase obtained a reader")
+	var nm *NoIdentityMatchError
+	V.Assert(errors.As(derr, &nm), "failure is not the dedicated no-match error")
+	if nm != nil {
+		V.Assert(len(nm.Errors) == 1 && errors.Is(nm.Errors[0], ErrIncorrectIdentity), "no-match error does not collect one incorrect-identity cause")
+	}
+}
+
+// Harness_C04_other_type: a file for 1..3 native recipients, decrypted with a
+// passphrase identity (a type the file has no stanza for) among non-matching
+// native identities: no reader, the no-match error with one cause per identity.
+func Harness_C04_other_type() {
+	V.InstallTape()
+	idA, idB, x := symIdentity("skA"), symIdentity("skB"), symIdentity("skX")
+	V.Assume(differ(x.ourPublicKey, idA.ourPublicKey) && differ(x.ourPublicKey, idB.ourPublicKey))
+	recips := []Recipient{idA.Recipient()}
+	for k := V.Int("extra", 0, 2); k > 0; k-- {
+		recips = append(recips, idB.Recipient())
+	}
+	var file bytes.Buffer
+	w, err := Encrypt(&file, recips...)
+	V.Assert(err == nil, "Encrypt failed")
+	if err != nil {
+		return
+	}
+	w.Close()
+	sid, _ := NewScryptIdentity("pw")
+	var ids []Identity
+	switch V.Int("ids", 0, 2) {
+	case 0:
+		ids = []Identity{sid}
+	case 1:
+		ids = []Identity{sid, x}
+	case 2:
+		ids = []Identity{x, sid, x}
+	}
+	rd, derr := Decrypt(bytes.NewReader(file.Bytes()), ids...)
+	V.Reach("returned")
+	V.Assert(rd == nil && derr != nil, "an identity of a type the file has no stanza for obtained a reader")
+	var nm *NoIdentityMatchError
+	V.Assert(errors.As(derr, &nm), "failure is not the dedicated no-match error")
+	if nm != nil {
+		V.Assert(len(nm.Errors) == len(ids), "no-match error does not collect one cause per identity tried")
+	}
+}
+
+// ---------------------------------------------------------------------------
+// C13 at the Encrypt level: header, nonce and payload writes
+
+type failingDst struct {
+	buf    bytes.Buffer
+	calls  int
+	failAt int
+	keep   int
+	once   bool
+	failed bool
+}
+
+var errDst = errors.New("injected write fault")
+
+func (f *failingDst) Write(p []byte) (int, error) {
+	k := f.calls
+	f.calls++
+	if k == f.failAt {
+		f.failed = true
+		n := f.keep
+		if n > len(p) {
+			n = len(p)
+		}
+		f.buf.Write(p[:n])
+		return n, errDst
+	}
+	if f.failed && !f.once {
+		return 0, errDst
+	}
+	return f.buf.Write(p)
+}
+
+// Harness_C13_encrypt_fault: the destination of Encrypt (optionally behind the
+// armor writer) fails at an arbitrary write call, permanently or once,
+// accepting 0 / 1 / all bytes of that call: some call among Encrypt, Write and
+// the Closes reports an error.
+func Harness_C13_encrypt_fault() {
+	V.InstallTape()
+	idA := symIdentity("skA")
+	P := V.Bytes("P", payloadLen())
+	dst := &failingDst{failAt: V.Int("failAt", -1, V.Param("maxcalls", 10)), once: V.Bool("once")}
+	switch V.Int("keep", 0, 2) {
+	case 1:
+		dst.keep = 1
+	case 2:
+		dst.keep = 1 << 20
+	}
+	var out io.Writer = dst
+	var aw io.WriteCloser
+	if V.Bool("armor") {
+		aw = armor.NewWriter(dst)
+		out = aw
+	}
+	anyErr := false
+	w, err := Encrypt(out, idA.Recipient())
+	if err != nil {
+		anyErr = true
+	} else {
+		if _, werr := w.Write(P); werr != nil {
+			anyErr = true
+		}
+		if w.Close() != nil {
+			anyErr = true
+		}
+	}
+	if aw != nil && aw.Close() != nil {
+		anyErr = true
+	}
+	if dst.failed {
+		V.Reach("fault-hit")
+		V.Assert(anyErr, "the destination failed but Encrypt, Write and Close all reported success")
+	} else {
+		V.Reach("no-fault")
+		V.Assert(!anyErr, "an error was reported although the destination accepted everything")
 	}
 }
